@@ -232,7 +232,7 @@ func (c *CLokiQuerier) Select(sortSeries bool, hints *storage.SelectHints,
 	if err != nil {
 		return &model.SeriesSet{Error: err}
 	}
-	c.ReshuffleSeries(res.Series)
+	res.Series = c.ReshuffleSeries(res.Series)
 	sort.Slice(res.Series, func(i, j int) bool {
 		for k, l1 := range res.Series[i].Labels() {
 			l2 := res.Series[j].Labels()
@@ -251,8 +251,10 @@ func (c *CLokiQuerier) Select(sortSeries bool, hints *storage.SelectHints,
 	return &res
 }
 
-func (c *CLokiQuerier) ReshuffleSeries(series []*model.Series) {
+// ReshuffleSeries merges the series that carry one label set and returns each label set once.
+func (c *CLokiQuerier) ReshuffleSeries(series []*model.Series) []*model.Series {
 	seriesMap := make(map[uint64]*model.Series, len(series)*2)
+	res := make([]*model.Series, 0, len(series))
 	for _, ent := range series {
 		labels := ent.LabelsGetter.Get(ent.Fp)
 		strLabels := make([][]byte, labels.Len())
@@ -271,8 +273,10 @@ func (c *CLokiQuerier) ReshuffleSeries(series []*model.Series) {
 
 		} else {
 			seriesMap[_fp] = ent
+			res = append(res, ent)
 		}
 	}
+	return res
 }
 
 func (c *CLokiQuerier) LabelValues(name string, matchers ...*labels.Matcher) ([]string, storage.Warnings, error) {
